@@ -48,13 +48,33 @@ def lift(x):
         x = float(x)
         if math.isinf(x) or math.isnan(x):
             return None
-        fr = Fraction(x)
-        return z3.RealVal(str(fr))
+        return z3.RealVal(str(float_fraction(x)))
     if isinstance(x, Fraction):
         return z3.RealVal(str(x))
     if isinstance(x, SymBool):
         return z3.If(x.e, z3.RealVal(1), z3.RealVal(0))
     return NotImplemented
+
+
+_FRAC_CACHE = {}
+
+
+def float_fraction(x):
+    """the rational a float constant stands for: the simplest fraction (denominator <= 10**9) that
+    rounds to exactly this double (0.3 -> 3/10, 1.6666666666666667 -> 5/3), otherwise the exact binary
+    value.  Integers and dyadic values are always exact."""
+    fr = _FRAC_CACHE.get(x)
+    if fr is None:
+        exact = Fraction(x)
+        fr = exact
+        if exact.denominator > 1024:
+            for lim in (1000, 10 ** 6, 10 ** 9):
+                cand = exact.limit_denominator(lim)
+                if float(cand) == x:
+                    fr = cand
+                    break
+        _FRAC_CACHE[x] = fr
+    return fr
 
 
 def _is_const(e):
@@ -189,13 +209,143 @@ EQ = _Cmp(lambda a, b: a == b, lambda p, n, z: z, False, False)
 NE = _Cmp(lambda a, b: a != b, lambda p, n, z: z3.Not(z), True, True)
 
 
-class SymReal:
-    """A real number given by a z3 term.  `factors` remembers a*b for the sign rewrite."""
-    __slots__ = ("e", "factors")
+def _poly(t):
+    return z3.simplify(t, som=True)
 
-    def __init__(self, e, factors=None):
-        self.e = e
+
+def _same(a, b):
+    return a is b or a.eq(b)
+
+
+def _mono(u, atoms):
+    """monomial u -> (Fraction coefficient, {atom id: power}) or None"""
+    if _is_const(u):
+        return _const_value(u), {}
+    if z3.is_app(u):
+        k = u.decl().kind()
+        if k == z3.Z3_OP_MUL:
+            coef, pw = Fraction(1), {}
+            for c in u.children():
+                r = _mono(c, atoms)
+                if r is None:
+                    return None
+                coef *= r[0]
+                for i, p in r[1].items():
+                    pw[i] = pw.get(i, 0) + p
+            return coef, pw
+        if k == z3.Z3_OP_UMINUS:
+            r = _mono(u.arg(0), atoms)
+            return None if r is None else (-r[0], r[1])
+        if k == z3.Z3_OP_POWER:
+            b, ex = u.arg(0), u.arg(1)
+            if _is_const(ex) and _const_value(ex).denominator == 1 and _const_value(ex) >= 1:
+                r = _mono(b, atoms)
+                if r is None or r[0] != 1:
+                    return None
+                return Fraction(1), {i: p * int(_const_value(ex)) for i, p in r[1].items()}
+            return None
+        if k in (z3.Z3_OP_ADD, z3.Z3_OP_SUB):
+            return None
+    atoms[u.get_id()] = u
+    return Fraction(1), {u.get_id(): 1}
+
+
+def _poly_terms(t, atoms):
+    """sum-of-monomials term -> {monomial key: Fraction} or None"""
+    parts = t.children() if (z3.is_app(t) and t.decl().kind() == z3.Z3_OP_ADD) else [t]
+    out = {}
+    for u in parts:
+        r = _mono(u, atoms)
+        if r is None:
+            return None
+        key = tuple(sorted(r[1].items()))
+        out[key] = out.get(key, Fraction(0)) + r[0]
+    return {k: v for k, v in out.items() if v != 0}
+
+
+def _poly_build(terms, atoms):
+    acc = None
+    for key, coef in sorted(terms.items(), key=lambda kv: repr(kv[0])):
+        t = z3.RealVal(str(coef))
+        for i, pw in key:
+            for _ in range(pw):
+                t = t * atoms[i]
+        acc = t if acc is None else acc + t
+    return z3.simplify(acc if acc is not None else z3.RealVal(0), som=True)
+
+
+def _mk(n, d):
+    """normalised quotient n/d (d known non-zero on the current path): constant denominators are
+    divided out, proportional polynomials give a constant, common monomial factors are cancelled"""
+    if d is None:
+        return SymReal(z3.simplify(n))
+    n, d = _poly(n), _poly(d)
+    if _is_const(d):
+        return SymReal(z3.simplify(n / d))
+    if _is_const(n) and _const_value(n) == 0:
+        return SymReal(z3.RealVal(0))
+    if _same(n, d):
+        return SymReal(z3.RealVal(1))
+    atoms = {}
+    pn, pd_ = _poly_terms(n, atoms), _poly_terms(d, atoms)
+    if pn and pd_:
+        if pn.keys() == pd_.keys():
+            ratios = {pn[k] / pd_[k] for k in pn}
+            if len(ratios) == 1:
+                return SymReal(z3.RealVal(str(ratios.pop())))
+        # common monomial factor (a variable present in every monomial of n and d)
+        allkeys = list(pn) + list(pd_)
+        common = dict(allkeys[0])
+        for key in allkeys[1:]:
+            kd = dict(key)
+            common = {i: min(p, kd[i]) for i, p in common.items() if i in kd}
+        lead = pd_[sorted(pd_, key=repr)[0]]
+        if common or lead != 1:
+            def strip(terms):
+                out = {}
+                for key, c in terms.items():
+                    kd = dict(key)
+                    for i, p in common.items():
+                        kd[i] -= p
+                    out[tuple(sorted((i, p) for i, p in kd.items() if p > 0))] = c / lead
+                return out
+            n, d = _poly_build(strip(pn), atoms), _poly_build(strip(pd_), atoms)
+            if _is_const(d):
+                return SymReal(z3.simplify(n / d))
+    return SymReal(None, n=n, d=d)
+
+
+def _sign_pred(op, n, d):
+    """truth of  n/d <op> 0  as a term without division (d != 0 on the path)"""
+    if d is None:
+        return op.f(n, z3.RealVal(0))
+    pos = z3.Or(z3.And(n > 0, d > 0), z3.And(n < 0, d < 0))
+    neg = z3.Or(z3.And(n > 0, d < 0), z3.And(n < 0, d > 0))
+    zero = (n == 0)
+    return op.sign(pos, neg, zero)
+
+
+class SymReal:
+    """A real number given by a z3 term `e`, or by a quotient n/d of two terms whose denominator is
+    known to be non-zero on the current path (division of symbolic values).  Quotients are kept as
+    pairs so that comparisons and equalities can be decided without division (sign logic over
+    numerator and denominator).  `factors` remembers a*b for the product-sign rewrite."""
+    __slots__ = ("_e", "factors", "n", "d")
+
+    def __init__(self, e, factors=None, n=None, d=None):
+        self._e = e
         self.factors = factors
+        self.n = n
+        self.d = d
+
+    @property
+    def e(self):
+        if self._e is None:
+            self._e = z3.simplify(self.n / self.d)
+        return self._e
+
+    def _nd(self):
+        return (self.n, self.d) if self.d is not None else (self._e, None)
 
     # -- arithmetic -------------------------------------------------------
     def _special(self, o, kind, swap):
@@ -207,54 +357,84 @@ class SymReal:
         if kind == "sub":
             return o if swap else -o
         if kind == "mul":
-            eng = engine()
-            if eng.branch(self.e > 0):
+            if self > 0:
                 return o
-            if eng.branch(self.e < 0):
+            if self < 0:
                 return -o
             return float("nan")
         raise Unsupported("operation %s with %r" % (kind, o))
 
-    def _bin(self, o, f, kind, swap=False):
+    def _operand(self, o):
+        """-> (n, d) of the other operand, None for inf/nan, NotImplemented"""
         if isinstance(o, LogReal):
             return NotImplemented
+        if isinstance(o, SymReal):
+            return o._nd()
         oe = lift(o)
-        if oe is NotImplemented:
+        if oe is NotImplemented or oe is None:
+            return oe
+        return (oe, None)
+
+    def _addsub(self, o, sgn, swap):
+        op = self._operand(o)
+        if op is NotImplemented:
             return NotImplemented
-        if oe is None:
-            return self._special(float(o), kind, swap)
-        return SymReal(z3.simplify(f(oe, self.e) if swap else f(self.e, oe)))
+        if op is None:
+            return self._special(float(o), "add" if sgn > 0 else "sub", swap)
+        (n1, d1), (n2, d2) = self._nd(), op
+        if swap:
+            (n1, d1), (n2, d2) = (n2, d2), (n1, d1)
+        if d1 is None and d2 is None:
+            return SymReal(z3.simplify(n1 + n2 if sgn > 0 else n1 - n2))
+        if d1 is None:
+            n1, d1 = n1 * d2, d2
+        elif d2 is None:
+            n2, d2 = n2 * d1, d1
+        elif not _same(d1, d2):
+            n1, n2, d1 = n1 * d2, n2 * d1, d1 * d2
+        return _mk(n1 + n2 if sgn > 0 else n1 - n2, d1)
 
     def __add__(self, o):
-        return self._bin(o, lambda a, b: a + b, "add")
+        return self._addsub(o, 1, False)
 
     def __radd__(self, o):
-        return self._bin(o, lambda a, b: a + b, "add", True)
+        return self._addsub(o, 1, True)
 
     def __sub__(self, o):
-        return self._bin(o, lambda a, b: a - b, "sub")
+        return self._addsub(o, -1, False)
 
     def __rsub__(self, o):
-        return self._bin(o, lambda a, b: a - b, "sub", True)
+        return self._addsub(o, -1, True)
 
     def __mul__(self, o):
-        if isinstance(o, SymReal) and not _is_const(o.e) and not _is_const(self.e):
-            return SymReal(z3.simplify(self.e * o.e), factors=(self.e, o.e))
-        return self._bin(o, lambda a, b: a * b, "mul")
+        op = self._operand(o)
+        if op is NotImplemented:
+            return NotImplemented
+        if op is None:
+            return self._special(float(o), "mul", False)
+        (n1, d1), (n2, d2) = self._nd(), op
+        if d1 is None and d2 is None:
+            if not _is_const(n1) and not _is_const(n2):
+                return SymReal(z3.simplify(n1 * n2), factors=(n1, n2))
+            return SymReal(z3.simplify(n1 * n2))
+        # cancel syntactically equal numerator/denominator
+        if d1 is not None and _same(n2, d1):
+            return _mk(n1, d2)
+        if d2 is not None and _same(n1, d2):
+            return _mk(n2, d1)
+        d = d1 if d2 is None else (d2 if d1 is None else d1 * d2)
+        return _mk(n1 * n2, d)
 
-    def __rmul__(self, o):
-        return self._bin(o, lambda a, b: a * b, "mul", True)
+    __rmul__ = __mul__
 
     def __truediv__(self, o):
-        if isinstance(o, LogReal):
+        op = self._operand(o)
+        if op is NotImplemented:
             return NotImplemented
-        oe = lift(o)
-        if oe is NotImplemented:
-            return NotImplemented
-        if oe is None:
+        if op is None:
             o = float(o)
             return float("nan") if math.isnan(o) else 0.0
-        return _div(self.e, oe)
+        return _div(self, op)
 
     def __rtruediv__(self, o):
         oe = lift(o)
@@ -264,12 +444,11 @@ class SymReal:
             o = float(o)
             if math.isnan(o):
                 return o
-            eng = engine()
             # inf / x : sign of x decides; inf/0 = inf (IEEE, +0)
-            if eng.branch(self.e >= 0):
+            if self >= 0:
                 return o
             return -o
-        return _div(oe, self.e)
+        return _div(SymReal(oe), self._nd())
 
     def __floordiv__(self, o):
         raise Unsupported("floor division of a symbolic real")
@@ -298,7 +477,7 @@ class SymReal:
 
     def sqrt(self):
         eng = engine()
-        if eng.branch(self.e < 0):
+        if self < 0:
             return float("nan")
         if _is_const(self.e):
             v = _const_value(self.e)
@@ -306,37 +485,49 @@ class SymReal:
             if r * r == v:
                 return SymReal(z3.RealVal(str(r)))
         r = eng.fresh_real("sqrt")
-        eng.define(z3.And(r >= 0, r * r == self.e))
+        if self.d is not None:
+            eng.define(z3.And(r >= 0, r * r * self.d == self.n))
+        else:
+            eng.define(z3.And(r >= 0, r * r == self.e))
         return SymReal(r)
 
     def __neg__(self):
-        return SymReal(z3.simplify(-self.e))
+        if self.d is not None:
+            return _mk(-self.n, self.d)
+        return SymReal(z3.simplify(-self._e))
 
     def __pos__(self):
         return self
 
     def __abs__(self):
-        return SymReal(z3.simplify(z3.If(self.e >= 0, self.e, -self.e)))
+        if self.d is not None:
+            n, d = self.n, self.d
+            return SymReal(None, n=z3.simplify(z3.If(n >= 0, n, -n)), d=z3.simplify(z3.If(d >= 0, d, -d)))
+        return SymReal(z3.simplify(z3.If(self._e >= 0, self._e, -self._e)))
 
     # -- comparisons -------------------------------------------------------
     def _cmp(self, o, op):
-        if isinstance(o, LogReal):
+        other = self._operand(o)
+        if other is NotImplemented:
             return NotImplemented
-        oe = lift(o)
-        if oe is NotImplemented:
-            return NotImplemented
-        if oe is None:
+        if other is None:
             o = float(o)
             if math.isnan(o):
                 return op is NE
             return op.at_pinf if o > 0 else op.at_ninf
-        if self.factors is not None and _is_const(oe) and _const_value(oe) == 0:
-            a, b = self.factors
-            pos = z3.Or(z3.And(a > 0, b > 0), z3.And(a < 0, b < 0))
-            neg = z3.Or(z3.And(a > 0, b < 0), z3.And(a < 0, b > 0))
-            zero = z3.Or(a == 0, b == 0)
-            return SymBool(z3.simplify(op.sign(pos, neg, zero)))
-        return SymBool(z3.simplify(op.f(self.e, oe)))
+        n2, d2 = other
+        if self.d is None and d2 is None:
+            oe = n2
+            if self.factors is not None and _is_const(oe) and _const_value(oe) == 0:
+                a, b = self.factors
+                pos = z3.Or(z3.And(a > 0, b > 0), z3.And(a < 0, b < 0))
+                neg = z3.Or(z3.And(a > 0, b < 0), z3.And(a < 0, b > 0))
+                zero = z3.Or(a == 0, b == 0)
+                return SymBool(z3.simplify(op.sign(pos, neg, zero)))
+            return SymBool(z3.simplify(op.f(self._e, oe)))
+        diff = self._addsub(o, -1, False)
+        n, d = diff._nd()
+        return SymBool(z3.simplify(_sign_pred(op, n, d)))
 
     def __lt__(self, o):
         return self._cmp(o, LT)
@@ -357,7 +548,7 @@ class SymReal:
         return self._cmp(o, NE)
 
     def __bool__(self):
-        return engine().branch(self.e != 0)
+        return bool(self != 0)
 
     # -- no silent concretisation -----------------------------------------
     def __hash__(self):
@@ -376,7 +567,9 @@ class SymReal:
         raise Unsupported("round() of a symbolic real")
 
     def __repr__(self):
-        return "S(%s)" % (self.e,)
+        if self.d is not None:
+            return "S((%s)/(%s))" % (self.n, self.d)
+        return "S(%s)" % (self._e,)
 
     # -- hooks used by numpy object loops ----------------------------------
     def sign(self):
@@ -411,25 +604,29 @@ class SymReal:
         return False
 
 
-def _div(a, b):
+def _div(x, den):
+    """x / (n2/d2) with IEEE behaviour for a zero divisor; x is a SymReal, den = (n2, d2)"""
     eng = engine()
-    if _is_const(b):
-        if _const_value(b) == 0:
-            zero = True
-        else:
-            return SymReal(z3.simplify(a / b))
+    n2, d2 = den
+    if _is_const(n2):
+        zero = (_const_value(n2) == 0)
     else:
-        zero = eng.branch(b == 0)
+        zero = eng.branch(n2 == 0)
     if zero:
-        if _is_const(a):
-            v = _const_value(a)
-            return float("inf") if v > 0 else (float("-inf") if v < 0 else float("nan"))
-        if eng.branch(a > 0):
+        if x > 0:
             return float("inf")
-        if eng.branch(a < 0):
+        if x < 0:
             return float("-inf")
         return float("nan")
-    return SymReal(z3.simplify(a / b))
+    n1, d1 = x._nd()
+    if d1 is None and d2 is None and _is_const(n2):
+        return SymReal(z3.simplify(n1 / n2))
+    # (n1/d1) / (n2/d2) = (n1*d2) / (d1*n2)
+    if d1 is not None and d2 is not None and _same(d1, d2):
+        return _mk(n1, n2)
+    num = n1 if d2 is None else n1 * d2
+    dd = n2 if d1 is None else d1 * n2
+    return _mk(num, dd)
 
 
 class LogReal:
